@@ -21,9 +21,9 @@ CHECKS = {
 CHECKS.update({
  'C13': ('sibling-agreement and typestate rules over the 24 attribute scanners and 24 parameter parsers (SCAN, COUPLE, PARAM), acceptance-switch table at all ≈92 builder sites (FLAGS), unique-selection idiom with abstract interpretation of every search loop (SEL), dominance of rejection exits over emissions (SHAPE, DUP), dispatch of every educed trait to its handler (DISP)',
          'Each obligation of the statement is tied to a structural rule evaluated on every parser/handler: unknown / un-educed / repeated trait, repeated or unknown or misplaced parameter, repeated rank or Into target, missing or duplicate designation, union and unit-variant refusals, nameless Debug. The acceptance table is transcribed from the documentation by documented names only.', '§6 C13'),
- 'C14': ('acceptance/conversion tables of the value helpers extracted from their match arms (p = v vs p(v), string vs bare forms), alias or-patterns, shorthand forms, read/write independence of parameter arms, full-visit and keyed-dispatch rules',
+ 'C14': ('acceptance/conversion tables of the value helpers extracted from their match arms (p = v vs p(v), string vs bare forms), alias or-patterns, shorthand forms, read/write independence of parameter arms, per-request state scoping, full-visit, stored-unmodified and keyed-dispatch rules',
          'For every spelling pair of the property the two spellings reach the same conversion and the same assignment, hence identical attribute records and identical output; parameter and trait order are irrelevant because arms touch only their own state and dispatch is keyed.', '§6 C14'),
- 'C15': ('who-may-read / who-may-call rules on the resolved source model: dispatch agreement, builder→own-models resolution, scanner trait filters, cross-module reference ban, .attrs read sites, uses of the educed-trait set',
+ 'C15': ('who-may-read / who-may-call rules on the resolved source model: dispatch agreement, builder→own-models resolution, scanner trait filters, cross-module reference ban, .attrs read sites, uses of the educed-trait set (membership tests of documented partners only; every scanner call is handed the received set)',
          'The only ways information can flow into handler X are enumerated and each is shown to carry X\'s own metas/attributes or one of the three documented couplings.', '§6 C15'),
  'C18': ('rustc verdict (type check, -D warnings) on educe\'s own source per feature subset (92 quick / 4096 thorough = exhaustive), truth-table implication of cfg gates for every crate-local reference, partner-idiom rule for every cfg inside handlers, per-trait gate agreement',
          'FM is exhaustive over the 4096 configurations in the thorough tier (92 in quick); CFG-REF/CFG-SAME/CFG-GATES explain the verdict structurally and give the same-code clause: a disabled partner feature behaves exactly like a partner that is not educed.', '§6 C18'),
